@@ -20,6 +20,34 @@ ASSUMPTIONS = ["timestamps on a dyadic grid are computed exactly by binary64; de
                "distinct entries are never math.isclose (grid spacing >> 1e-9 relative)"]
 
 
+def _touching_windows(tier, rng):
+    """Textgrid.crop with a window that only touches a tier's own span: it starts exactly where a narrow tier ends (or ends
+    where it starts), and that tier holds an entry reaching that time -- a point ON the shared time is inside the closed
+    window.  Own PRNG stream, so that the other cases are what they were before this family existed."""
+    import random
+    rng = random.Random(rng.random())
+    cases = []
+    for _ in range(120 if tier == "quick" else 4000):
+        tiers = []
+        for k in range(rng.randint(2, 4)):
+            t = gen.random_ptier(rng, name="p%d" % k, tmax=40) if rng.random() < 0.6 else gen.random_itier(rng, name="i%d" % k, tmax=40)
+            if t["entries"] and rng.random() < 0.7:
+                t["min"], t["max"] = t["entries"][0][0] - rng.choice([0, 0, 1]), t["entries"][-1][-2] + rng.choice([0, 0, 1])
+            else:
+                t["min"], t["max"] = min(0, t["min"]), max(40, t["max"])
+            tiers.append(t)
+        t = rng.choice(tiers)
+        if rng.random() < 0.5:
+            a = t["max"]
+            b = a + rng.randint(1, 12)
+        else:
+            b = t["min"]
+            a = b - rng.randint(1, 12)
+        cases.append({"op": "tgcrop", "tiers": tiers, "a": a, "b": b, "mode": rng.choice(list(MODES)),
+                      "rebase": rng.random() < 0.5, "scale": gen.pick_scale(rng)})
+    return cases
+
+
 def generate(tier, rng):
     cases = []
     small = gen.small_itiers(8, 3)
@@ -94,6 +122,7 @@ def generate(tier, rng):
             b = max(t["max"] for t in tiers) + rng.choice([0, 0, 1, 3])
         cases.append({"op": "tgcrop", "tiers": tiers, "a": a, "b": b, "mode": rng.choice(list(MODES)),
                       "rebase": rng.random() < 0.5, "scale": gen.pick_scale(rng)})
+    cases += _touching_windows(tier, rng)
     # the same selections on a grid of binary64 neighbours (0.3 and 0.1+0.2 are different times): crop compares exactly
     elig = [c for c in cases if c["op"] in ("icrop", "pcrop") and not c["rebase"]]
     for c in rng.sample(elig, min(len(elig), 600 if tier == "quick" else 20000)):
